@@ -13,7 +13,7 @@ LEVEL = 'exploration'
 
 SEGS = ['.', '..', '%2e%2e', '%2E', '%2f', '%5c', '..%2f', '%00', 'a%0Ab', 'a.', 'a ', 'CON',
         'a' * 300, 'é', '', 'x', '%2e%2e%2f%2e%2e%2fetc', '...', '%2e', '~', '-', ' ', '%20',
-        '..%5c..', 'a%2f..%2fb']
+        '..%5c..', 'a%2f..%2fb', 'a%7Fb', 'a%C2%85b%C2%9B']
 CD_VALUES = ['attachment; filename=../x', 'attachment; filename=..', 'attachment; filename=.',
              'attachment; filename=/etc/passwd', 'attachment; filename=a/b',
              'attachment; filename="..\\x"', 'attachment; filename=a%2fb',
@@ -28,7 +28,8 @@ CD_VALUES = ['attachment; filename=../x', 'attachment; filename=..', 'attachment
              'attachment; filename="\t..\t"', 'attachment; filename=" ../x "',
              'attachment; filename="..\x00"', 'attachment; filename="%2e%2e"',
              'attachment; filename="..\r\n"', 'attachment; filename*=UTF-8\'\'..',
-             'attachment; filename="a"; filename=".."']
+             'attachment; filename="a"; filename=".."', 'attachment; filename="e\x7f\x85.txt"',
+             'attachment; filename="c1\xc2\x9b31m"']
 
 
 def configs():
@@ -77,7 +78,8 @@ def judge_path(path, root, cfg):
             return 'dot component in %r' % sub[:80]
         if cfg['os_type'] == 'windows' and '\\' in c:
             return 'backslash inside a component (windows mode): %r' % c[:40]
-        if cfg['no_control'] and re.search(r'[\x00-\x1f]', c):
+        if cfg['no_control'] and re.search('[\x00-\x1f\x7f-\x9f]', c):
+            # C0, DEL and C1: the Unicode control characters (category Cc)
             return 'control character in component %r' % c[:40]
     if '\x00' in path:
         real = os.path.normpath(path)       # the OS would refuse the name anyway
